@@ -27,6 +27,7 @@ Non-trivial = both decoders accept and the plaintext is non-empty; distinct = ha
     replay,
     exh: Some(exh),
     totality: false,
+    aggregate: None,
 };
 
 const MAX_OUT: usize = 64 << 20;
